@@ -201,12 +201,17 @@ private:
         // A received control PDU is only looked at when a transmit buffer of maximum size can be had, whether it needs an answer or not:
         // an instant based PDU that waits behind an occupied (or unallocatable, see C15) transmit ring can miss its instant.
         const bool tx_starved = std::string( property ) == "C21" && tx_starved_since_update_;
-        res_.violate( property, rule, rx_full_streak_ >= 6 ? "receive-ring-full-acks-ignored " + key : tx_starved ? "transmit-buffer-unavailable " + key : key, idx_, fmt, args... );
+        // the deadlock: for several events nothing could be received, and no transmit buffer can be had to work the receive ring off
+        const bool rx_deadlock = rx_full_streak_ >= 6 || ( rx_full_streak_ >= 2 && ll_.tx_allocatable && !ll_.tx_allocatable() );
+        res_.violate( property, rule, rx_deadlock ? "receive-ring-full-acks-ignored " + key : tx_starved ? "transmit-buffer-unavailable " + key : key, idx_, fmt, args... );
     }
     unsigned            rx_full_streak_ = 0;
     std::deque< expect_rsp > lapsed_optional_;      // optional answers the central stopped waiting for
     bool                tx_starved_since_update_ = false;   // since the last instant based PDU was delivered, an event ended without a free transmit buffer
     bool                last_evt_unacked_ = false;      // the peripheral's last transmitted PDU carried data nothing acknowledged yet
+    std::set< int >     remote_terminate_reasons_;      // reasons of the LL_TERMINATE_IND PDUs the central sent on this connection: the peripheral reports them as its closing reason
+    bool                map_update_sent_ = false;       // a channel map update was sent on this connection
+    int                 directed_target_ = -1;          // device the application named last as target of directed advertising
     bool                raw_instant_pdu_sent_ = false;  // on this connection the central sent an instant based PDU with arbitrary content
 
     void activity();
@@ -216,7 +221,7 @@ private:
     void snapshot_adv_schedule();
     void close_adv_event();
     bytes make_scan_request( const sim::Op& op, const bytes& adv ) const;
-    bytes make_connect_request( const sim::Op& op, const bytes& adv, bool& valid, central_model& nc ) const;
+    bytes make_connect_request( const sim::Op& op, const bytes& adv, bool& valid, bool& either, central_model& nc ) const;
     void central_unanswered_event();
     void central_advance_event();
     void central_process( const bytes& rsp, bool& more_from_peripheral );
@@ -419,12 +424,12 @@ inline void world::advertising_activity()
     const unsigned adv_type = adv[ 0 ] & 0xf;
     const bool adv_tx_random = ( adv[ 0 ] & 0x40 ) != 0;
     bytes rx;
-    bool is_connect = false, connect_valid = false;
+    bool is_connect = false, connect_valid = false, connect_either = false;
     central_model nc;
     if ( initiator_.active )
     {
         initiator_.active = false;
-        rx = make_connect_request( initiator_.op, adv, connect_valid, nc );
+        rx = make_connect_request( initiator_.op, adv, connect_valid, connect_either, nc );
         is_connect = true;
     }
     else if ( scanner_.active )
@@ -479,6 +484,7 @@ inline void world::advertising_activity()
     const bool entered = r_.pending == radio_state::connection_event;
     res_.note( "adv rx type %u len %zu -> %s", rx_type, rx.size(), entered ? "connection" : "ignored" );
     // ---- C25 / C22: connection iff valid, addressed, permitted
+    if ( connect_either && is_connect ) { connect_valid = entered; res_.probe( "directed_target_changed_while_pdu_pending" ); }
     if ( entered != ( is_connect && connect_valid ) )
     {
         const sim::Op& o = initiator_.op;
@@ -512,7 +518,7 @@ inline void world::advertising_activity()
         app_procedure_started_local_us_ = -1; app_version_req_ = false; app_param_req_ = app_phy_req_ = 0;
         local_disconnect_requested_ = false;
         expected_close_reason_ = -1;
-        raw_instant_pdu_sent_ = false; tx_starved_since_update_ = false;
+        raw_instant_pdu_sent_ = false; tx_starved_since_update_ = false; remote_terminate_reasons_.clear(); map_update_sent_ = false;
         (void)cb_before;
     }
     snapshot_adv_schedule();
@@ -541,7 +547,7 @@ inline bytes world::make_scan_request( const sim::Op& op, const bytes& adv ) con
     return p;
 }
 
-inline bytes world::make_connect_request( const sim::Op& op, const bytes& adv, bool& valid, central_model& nc ) const
+inline bytes world::make_connect_request( const sim::Op& op, const bytes& adv, bool& valid, bool& either, central_model& nc ) const
 {
     // a: 0 kind, 1 initiator id, 2 interval (1.25 ms), 3 latency, 4 timeout (10 ms), 5 window size, 6 window offset, 7 hop, 8 channel map seed, 9 sca, 10 jitter permille of the window, 11 md burst
     const int kind = static_cast< int >( ( ( op.arg( 0 ) % 9 ) + 9 ) % 9 );
@@ -599,11 +605,15 @@ inline bytes world::make_connect_request( const sim::Op& op, const bytes& adv, b
     if ( kind == 1 ) p[ 10 ] ^= 0x04;
     if ( kind == 2 ) p[ 0 ] ^= 0x80;
     if ( kind == 3 ) { if ( who & 1 ) { p.push_back( 0 ); p[ 1 ] = 35; } else { p.pop_back(); p[ 1 ] = 33; } }
-    // directed advertising: only the target may connect (target = initiator #1)
+    // directed advertising: only the target may connect. The target is the device named in the PDU on the air; when the application named another
+    // target after that PDU was scheduled, the property does not say which of the two counts: either decision is accepted for these two devices
+    either = false;
     if ( ( adv[ 0 ] & 0xf ) == 1 )
     {
         const bool is_target = adv.size() >= 14 && std::equal( init, init + 6, adv.begin() + 8 ) && ( ( adv[ 0 ] & 0x80 ) != 0 );
-        if ( !is_target ) valid = false;
+        const bool is_configured_target = directed_target_ >= 0 && who == static_cast< unsigned >( directed_target_ );
+        if ( !is_target && !is_configured_target ) valid = false;
+        else if ( is_target != is_configured_target && valid ) either = true;
     }
     if ( ( adv[ 0 ] & 0xf ) == 2 || ( adv[ 0 ] & 0xf ) == 6 ) valid = false;      // not connectable
     if ( ll_.has_white_list && wl_conn_filter_ && !white_list_.count( who ) ) valid = false;
@@ -667,6 +677,8 @@ inline void world::queue_central_control( std::uint8_t opcode, const bytes& para
     case 0x09: case 0x10: case 0x13: case 0x17: case 0x14: case 0x15: e.allowed = { 0x07 }; e.opcode = 0xff; break;   // responses to procedures the peripheral may have started: lenient
     default: e.allowed = { 0x07 }; break;
     }
+    if ( opcode == 0x02 && len == 2 ) remote_terminate_reasons_.insert( p.payload[ 1 ] );
+    if ( opcode == 0x01 && len == 8 ) map_update_sent_ = true;
     res_.note( "central queues control 0x%02x len %zu", opcode, len );
     if ( e.none && e.allowed.empty() )
     {
@@ -761,8 +773,23 @@ inline void world::connection_event_activity()
     // plus 2 ppm of the time since the last anchor: two clocks at opposite ends of their accuracy differ by slightly more than the sum
     // of the accuracies (1000.5 ppm for +-500 ppm), which the widening the property asks for (the sum) does not cover
     const std::int64_t tolerance_us = 2 + static_cast< std::int64_t >( we ) / 500000;
-    while ( c_.connected && to_local_us( c_.anchor_ns ) < ws - tolerance_us ) central_unanswered_event();
+    bool own_anchor_before_window = false;
+    std::int64_t own_anchor_local = 0;
+    while ( c_.connected && to_local_us( c_.anchor_ns ) < ws - tolerance_us )
+    {
+        // the window of the event the peripheral aims at opens after that event's anchor
+        if ( c_.abs_counter == k_abs ) { own_anchor_before_window = true; own_anchor_local = to_local_us( c_.anchor_ns ); }
+        central_unanswered_event();
+    }
     const bool in_window = c_.connected && to_local_us( c_.anchor_ns ) <= we + tolerance_us;
+    if ( own_anchor_before_window && c_.connected && !c_.sync_excused )
+    {
+        const bool around_update = c_.upd.active || instants_applied || ( c_.upd.kind == 0 && c_.upd.tag > 0 );
+        violate( around_update ? "C21" : "C22", "window-misses-anchor", std::string( established_ ? "window-misses-anchor late" : "window-misses-first-anchor late" ),
+                 "event %llu: window [%lld, %lld] us after T0 opens after the central's anchor of that event at %lld us (interval %u us)", (unsigned long long)k_abs,
+                 (long long)( ws - r_.t0_us ), (long long)( we - r_.t0_us ), (long long)( own_anchor_local - r_.t0_us ), c_.interval_us );
+        c_.sync_excused = true;     // both sides count differently from here on
+    }
 
     // ---- oracles on what the peripheral scheduled (only while the central is alive and did not excuse the peripheral)
     if ( c_.connected && !c_.sync_excused )
@@ -787,7 +814,7 @@ inline void world::connection_event_activity()
             const unsigned want = c_.csa1( k_abs, map );
             if ( r_.channel != want )
             {
-                const bool around_instant = c_.upd.kind == 1 && c_.upd.tag > 0;      // a channel map update was delivered (or is on its way) on this connection
+                const bool around_instant = map_update_sent_;      // a channel map update was delivered (or is on its way) on this connection
                 violate( around_instant ? "C21" : "C20", "data-channel", std::string( around_instant ? "data-channel at-map-instant" : "data-channel" ), "event %llu scheduled on channel %u, Channel Selection Algorithm #1 gives %u (hop %u)", (unsigned long long)k_abs, r_.channel, want, c_.hop );
                 c_.sync_excused = true;     // from here on the two sides hop differently: everything else would be a consequence
             }
@@ -816,7 +843,7 @@ inline void world::connection_event_activity()
     {
         const int fault = air_fault_left_ > 0 ? air_fault_kind_ : 0;
         if ( air_fault_left_ > 0 ) { --air_fault_left_; ++faults_fired; res_.fault( fault == 1 ? "c2p_lost" : fault == 2 ? "c2p_crc" : fault == 3 ? "p2c_lost" : "central_silent" ); }
-        rx_local = std::max( to_local_us( c_.anchor_ns ), ws );
+        rx_local = to_local_us( c_.anchor_ns );      // the anchor the radio captures is the start of the packet, also when it is heard only thanks to the tolerance
         const bool channel_ok = r_.channel == c_.csa1( c_.abs_counter, c_.chm ) && r_.phy_rx == c_.phy;
         if ( fault == 1 || fault == 4 || !channel_ok )
         {
@@ -1104,6 +1131,11 @@ inline void world::do_app( const sim::Op& op )
             else { adv_enabled_ = true; adv_count_left_ = static_cast< int >( 1 + ( ( b % 4 ) + 4 ) % 4 ) + ( pdu_in_radio && !stopped ? 1 : 0 ); }   // a PDU the radio already holds is not counted
         }
         break;
+    case 9:                                                                           // change the advertising type (takes effect with the next advertising PDU that is scheduled)
+        result = ll_.app( 9, a, b );
+        if ( result ) res_.probe( "advertising_type_changed" );
+        if ( result && ( ( a % 4 ) + 4 ) % 4 == 1 ) directed_target_ = static_cast< int >( ( ( b % 12 ) + 12 ) % 12 );
+        break;
     default: break;
     }
     res_.note( "app %d(%lld,%lld) -> %d", kind, (long long)a, (long long)b, result );
@@ -1133,7 +1165,12 @@ inline void world::after_callbacks( const char* )
         {
             const int reason = rec_.closed_reasons.empty() ? -1 : rec_.closed_reasons.back();
             // supervision timeout only after the timeout really elapsed
-            if ( reason == 0x08 )
+            if ( remote_terminate_reasons_.count( reason ) )
+            {
+                // the reason the central gave in its LL_TERMINATE_IND, whatever it is
+                res_.probe( "closed_by_remote_terminate" );
+            }
+            else if ( reason == 0x08 )
             {
                 const std::int64_t silent = r_.now_us - last_valid_rx_local_us_;
                 std::int64_t need = static_cast< std::int64_t >( c_.timeout_us );
